@@ -312,25 +312,23 @@ def write_cfg(template, subst, path):
     return path
 
 
-def validate_histories(spec_tla, cfg_path, hists, workdir, tag, nchunks=None, timeout=1200):
-    """hists: list of event lists.  Concatenate with reset events, split into chunks on execution
-    boundaries, validate each chunk with TLC in parallel.  Returns (rejected list of history indexes,
-    stats)."""
-    os.makedirs(workdir, exist_ok=True)
-    total = sum(len(h) + 1 for h in hists)
+def _segments(hists, idxs, nchunks):
+    total = sum(len(hists[i]) + 1 for i in idxs)
     nchunks = nchunks or max(1, min(NCPU, total // 1500 + 1))
     per = total / nchunks
-    chunks = [[]]
+    segs = [[]]
     acc = 0
-    for i, h in enumerate(hists):
-        if acc >= per * len(chunks) and len(chunks) < nchunks:
-            chunks.append([])
-        chunks[-1].append(i)
-        acc += len(h) + 1
+    for i in idxs:
+        if acc >= per * len(segs) and len(segs) < nchunks:
+            segs.append([])
+        segs[-1].append(i)
+        acc += len(hists[i]) + 1
+    return [s for s in segs if s]
+
+
+def _validate_segments(spec_tla, cfg_path, hists, segs, workdir, tag, timeout):
     jobs = []
-    for ci, idxs in enumerate(chunks):
-        if not idxs:
-            continue
+    for ci, idxs in enumerate(segs):
         path = os.path.join(workdir, '%s.trace.%d.ndjson' % (tag, ci))
         starts = []
         n = 0
@@ -349,7 +347,8 @@ def validate_histories(spec_tla, cfg_path, hists, workdir, tag, nchunks=None, ti
         return job, r
 
     rejected = []
-    stats = {'states': 0, 'distinct': 0, 'events': total, 'chunks': len(jobs), 'histories': len(hists)}
+    tails = []
+    stats = {'states': 0, 'distinct': 0, 'events': sum(j[4] for j in jobs), 'chunks': len(jobs)}
     with ThreadPoolExecutor(max_workers=NCPU) as pool:
         for job, r in pool.map(one, jobs):
             ci, idxs, starts, path, n = job
@@ -359,40 +358,46 @@ def validate_histories(spec_tla, cfg_path, hists, workdir, tag, nchunks=None, ti
                 raise InfraError('TLC trace validation failed to run (%s):\n%s' % (tag, r['out'][-3000:]))
             if r['maxl'] >= n + 1:
                 continue
-            # find the rejected history: the one containing line maxl
             pos = r['maxl']
             k = 0
-            for j, s in enumerate(starts):
-                if s <= pos:
+            for j, st in enumerate(starts):
+                if st <= pos:
                     k = j
-            rejected.append({'hist': idxs[k], 'line': pos - starts[k], 'chunk': path})
-    return rejected, stats
+            rejected.append({'hist': idxs[k], 'line': pos - starts[k]})
+            if idxs[k + 1:]:
+                tails.append(idxs[k + 1:])     # not examined yet
+    return rejected, tails, stats
 
 
-def validate_until_clean(spec_tla, cfg_path, hists, workdir, tag, max_rounds=6, timeout=1200):
-    """TLC stops at the first history it cannot explain; drop it and re-validate the rest of that
-    chunk so that every history is examined (MongoDB's lesson)."""
-    remaining = list(range(len(hists)))
+def validate_histories(spec_tla, cfg_path, hists, workdir, tag, nchunks=None, timeout=1200):
+    """Validate every history (list of events) with TLC; histories are concatenated with reset events
+    and split into chunks that run in parallel.  Returns (rejected [{hist,line}], stats) - first
+    rejection per chunk only."""
+    os.makedirs(workdir, exist_ok=True)
+    segs = _segments(hists, list(range(len(hists))), nchunks)
+    rej, _, st = _validate_segments(spec_tla, cfg_path, hists, segs, workdir, tag, timeout)
+    st['histories'] = len(hists)
+    return rej, st
+
+
+def validate_until_clean(spec_tla, cfg_path, hists, workdir, tag, max_rounds=4, timeout=1200, max_rejections=24):
+    """TLC stops at the first history of a chunk it cannot explain; the histories behind it are then
+    validated in a further round, so that every history is examined (up to max_rounds rounds)."""
+    os.makedirs(workdir, exist_ok=True)
+    segs = _segments(hists, list(range(len(hists))), None)
     rejected_all = []
-    stats_all = {'states': 0, 'distinct': 0, 'events': 0, 'chunks': 0, 'histories': len(hists)}
+    stats_all = {'states': 0, 'distinct': 0, 'events': 0, 'chunks': 0, 'histories': len(hists), 'unexamined': 0}
     for rnd in range(max_rounds):
-        sub = [hists[i] for i in remaining]
-        rej, st = validate_histories(spec_tla, cfg_path, sub, workdir, '%s.r%d' % (tag, rnd), timeout=timeout)
+        rej, tails, st = _validate_segments(spec_tla, cfg_path, hists, segs, workdir, '%s.r%d' % (tag, rnd), timeout)
         for k in ('states', 'distinct', 'events', 'chunks'):
             stats_all[k] += st[k]
-        if not rej:
+        rejected_all.extend(rej)
+        if not tails or len(rejected_all) >= max_rejections:
+            stats_all['unexamined'] = sum(len(t) for t in tails)
             break
-        bad = set()
-        keep_from = None
-        for r in rej:
-            gi = remaining[r['hist']]
-            rejected_all.append({'hist': gi, 'line': r['line']})
-            bad.add(gi)
-        # histories before a rejected one in the same chunk were accepted; those after were not examined
-        # simplest sound choice: re-validate everything except the rejected ones
-        remaining = [i for i in remaining if i not in bad]
-        if not remaining:
-            break
+        segs = tails
+        if rnd == max_rounds - 1:
+            stats_all['unexamined'] = sum(len(t) for t in tails)
     return rejected_all, stats_all
 
 
@@ -560,3 +565,61 @@ def hb_stream(ex, prog_line=None):
 def add_join_syncs(ex, stream):
     """the final thread runs after all others were joined; an init thread runs before the others start"""
     return stream
+
+
+def node_stream(ex):
+    """allocation / free / access stream of MCS queue nodes for NodeTrace (C12)"""
+    out = []
+    started = set()
+    owning = set()      # guards that currently own a grant
+    for e in ex.events:
+        k = e.get('e')
+        t = e.get('t', 0)
+        if t > 0 and t not in started and k in ('op', 'call', 'ret', 'alloc'):
+            started.add(t)
+            out.append({'e': 'tstart', 't': t, 'n': '-'})
+        if k == 'alloc' and e.get('cls') == 'N':
+            out.append({'e': 'alloc', 't': t, 'n': e['n']})
+        elif k == 'free' and e.get('cls') == 'N':
+            out.append({'e': 'free', 't': t, 'n': e['n']})
+        elif k == 'doublefree':
+            out.append({'e': 'free', 't': t, 'n': 'freed:' + e['n']})
+        elif k == 'op' and e.get('cls') in ('N', 'freed'):
+            n = e['loc'].split('+')[0]
+            out.append({'e': 'acc', 't': t, 'n': n if e['cls'] == 'N' else 'freed:' + n})
+        elif k == 'call' and e['op'] in ('LockS', 'LockSIX', 'LockX'):
+            out.append({'e': 'reqb', 't': t, 'n': '-'})
+        elif k == 'ret':
+            op = e['op']
+            if op in ('LockS', 'LockSIX', 'LockX'):
+                if e.get('b') == 1:
+                    owning.add(e['g'])
+                else:
+                    out.append({'e': 'reqe', 't': t, 'n': '-'})
+            elif op == 'Destroy':
+                if e['g'] in owning:
+                    owning.discard(e['g'])
+                    out.append({'e': 'reqe', 't': t, 'n': '-'})
+            elif op in ('Upgrade', 'Downgrade'):
+                if e['g'] in owning:
+                    owning.discard(e['g'])
+                    if e.get('b') == 1:
+                        owning.add(e['h'])
+                    else:
+                        out.append({'e': 'reqe', 't': t, 'n': '-'})
+            elif op == 'MoveCtor':
+                if e['g'] in owning:
+                    owning.discard(e['g'])
+                    owning.add(e['h'])
+            elif op == 'MoveAssign':
+                if e['h'] in owning:
+                    owning.discard(e['h'])
+                    out.append({'e': 'reqe', 't': t, 'n': '-'})
+                if e['g'] in owning:
+                    owning.discard(e['g'])
+                    owning.add(e['h'])
+        elif k == 'texit':
+            out.append({'e': 'texit', 't': t, 'n': '-'})
+        elif k == 'final':
+            out.append({'e': 'final', 't': 0, 'n': '-'})
+    return out
